@@ -170,6 +170,97 @@ def world_obligations(run, label, which=("MODULO", "ISOLATION")):
       else:
         m2 = dict(m, timeout_ms=4000, sat_hints=[[sh == 2, W == 1], [sh == 3, W == 2], [sh == 2]])
         out.append(Obligation(oid, ass + [zb(a.guard), sh >= 1], i0 == want, func=key, kind="MODULO", meta=dict(m2, int_projection=True)))
+  if "SLOT" in which:
+    out.extend(slot_obligations(run, label, W, meta0, ass))
+  return out
+
+
+def _shared_class(fname):
+  """-> ('contact'|'collision', is_tag) for formals living in the world-shared slot buffers"""
+  cls = census.classify_formal(fname)
+  if cls is None:
+    return None
+  owner, field, dims = cls
+  if not dims or dims[0] != "naconmax":
+    return None
+  if owner == "Contact":
+    return ("contact", field == "worldid")
+  if owner == "Data" and field.startswith("collision_"):
+    return ("collision", field == "collision_worldid")
+  return None
+
+
+def _reads_own_world(t, W, nworld_formals):
+  """does term t contain an application F(W, ...) of an nworld-led formal F?"""
+  seen = set()
+  stack = [t]
+  while stack:
+    x = stack.pop()
+    if x.get_id() in seen:
+      continue
+    seen.add(x.get_id())
+    if z3.is_app(x):
+      if x.decl().kind() == z3.Z3_OP_UNINTERPRETED and x.num_args() >= 1 and x.arg(0).eq(W):
+        n = x.decl().name().split("@")[0]
+        # an nworld-led field, or a temporary with >= 2 dims whose leading index is the world
+        if n in nworld_formals or x.num_args() >= 2:
+          return True
+      stack.extend(x.children())
+  return False
+
+
+def slot_obligations(run, label, W, meta0, ass):
+  """SLOT: an access to the shared contact/collision buffers is to a slot owned by the thread:
+  its own thread index, a slot it allocated (atomic_add return), a slot its own world points
+  to (index read from an nworld-led array at W), the slot its world tag W was read from, or
+  any slot under a guard that implies tag[slot] == W."""
+  ex = run.ex
+  key = run.key
+  out = []
+  nworld_formals = set()
+  tags = {}
+  for name, v in run.params.items():
+    if not isinstance(v, ArrRef):
+      continue
+    cls = census.classify_formal(name)
+    if cls and cls[2] and cls[2][0] == "nworld":
+      nworld_formals.add(name)
+    sc = _shared_class(name)
+    if sc and sc[1]:
+      tags.setdefault(sc[0], v)
+  seen = set()
+  for fname, a in formal_accesses(run):
+    sc = _shared_class(fname)
+    if sc is None or not a.idx:
+      continue
+    buf, is_tag = sc
+    if is_tag and a.kind == "r":
+      continue  # reading a slot's tag (to filter on it) is how ownership is established
+    c = lift(a.idx[0])
+    sig = (fname, c.get_id(), zb(a.guard).get_id(), a.kind)
+    if sig in seen:
+      continue
+    seen.add(sig)
+    oid = f"{key}[{label}]#SLOT.{fname}@{a.lineno}.{a.kind}"
+    m = dict(meta0, goal=f"{fname}[{str(c)[:60]}] is a slot owned by the thread's world", lineno=a.lineno)
+    why = None
+    if any(c.eq(t) for t in ex.tids):
+      why = "own thread index"
+    elif z3.is_const(c) and "@atomic_" in c.decl().name():
+      why = "slot allocated by this thread (atomic_add)"
+    elif z3.is_app(W) and W.num_args() == 1 and W.arg(0).eq(c):
+      why = "the slot the owning world was read from"
+    elif _reads_own_world(c, W, nworld_formals):
+      why = "slot index read from the own world's row of a per-world array"
+    if why:
+      out.append(Result(oid=oid, status="discharged", kind="SLOT", func=key, backend="provenance: " + why, meta=m))
+      continue
+    tag = tags.get(buf)
+    if tag is None:
+      out.append(Result(oid=oid, status="violated", kind="SLOT", func=key, backend="analysis", meta=dict(m, note="slot of unknown provenance and the kernel has no world-tag array to guard it")))
+      continue
+    tagv = ex.st.arrs0[tag.aid]((c,))
+    out.append(Obligation(oid, ass + [zb(a.guard)], tagv == W, func=key, kind="SLOT", meta=dict(m, int_projection=True, timeout_ms=4000)))
   return out
 
 
@@ -184,7 +275,7 @@ def kernel_group(key, which, dedupe_label=True):
     for cl in census.specialisations(info):
       label = census.spec_label(cl)
       try:
-        run = census.run_kernel(info, cl)
+        run = census.run_kernel(info, {k: v for k, v in cl.items() if k != "$label"}, fast=True)
       except Unsupported as e:
         out.append(Result(oid=f"{key}[{label}]#translate", status="out-of-scope", kind="scope", func=key, reason=str(e)[:200], meta={"function": key}))
         continue
